@@ -707,15 +707,18 @@ func runC17(c *Ctx) {
 			}
 			construct := fmt.Sprintf("go %s | in %s", join(tnames), c.nm(gs.fn))
 			// tracked?
-			addKeys := map[string]ssa.Instruction{}
+			addKeys := map[string]map[ssa.Instruction]bool{}
 			ir.Instrs(gs.fn, func(in ssa.Instruction) {
 				if k, m, ok := c.wgKey(in); ok && m == "Add" {
-					addKeys[k] = in
+					if addKeys[k] == nil {
+						addKeys[k] = map[ssa.Instruction]bool{}
+					}
+					addKeys[k][in] = true
 				}
 			})
 			tracked := ""
 			for _, t := range gs.targets {
-				for k, addIn := range addKeys {
+				for k, addIns := range addKeys {
 					// Done deferred at entry or on every exit
 					isDone := func(in ssa.Instruction) bool {
 						kk, m, ok := c.wgKey(in)
@@ -734,7 +737,7 @@ func runC17(c *Ctx) {
 					// Add precedes the go statement
 					pre := false
 					ir.Walk(gs.fn.Blocks[0], 0, nil, func(in ssa.Instruction) bool {
-						if in == addIn {
+						if addIns[in] {
 							return false
 						}
 						if in == ssa.Instruction(gs.in) {
